@@ -146,6 +146,9 @@ var Templates = []string{
 	"a $((1+2)) b",
 	"a <<E\nx $y\nE\n",
 	"a <<E\nE\n",
+	"a <<E\nfoo\n\\\nbar $x\n\\\nbaz\nE\n",
+	"a <<-A <<B\n\tx\n\tA\n\tB\ny\nB\n",
+	"{ # one\n\ta $(b # two\n\t) # three\n}\n",
 	"a <<E <<-F; b\nE\n\tF\n",
 	"{ a <<E\nE\n}",
 	"a \"$@$@\" \"${@}$*\" $*$@ \"$*$*\"",
